@@ -780,6 +780,16 @@ pub fn fixed_cases(thorough: bool) -> Vec<(&'static str, Vec<Op>)> {
         v.push(("basic", vec![ArrayFormula(0, 9, 2, 2, 1, format!("={}", f))]));
         v.push(("basic", vec![ArrayFormula(0, 9, 2, 1, 2, format!("={}", f))]));
     }
+    // non-square CSE arrays whose anchor value is of each kind (number, boolean, text, error)
+    for f in ["A1:B3*2", "A1:B3>4", "A1:B3&\"x\"", "A1:B3/0", "A1:C2=7"] {
+        v.push(("basic", vec![ArrayFormula(0, 9, 2, 2, 3, format!("={}", f))]));
+        v.push(("basic", vec![ArrayFormula(0, 9, 2, 3, 2, format!("={}", f))]));
+    }
+    // texts that look like the file format's _xHHHH_ escapes, in both letter cases
+    for t in ["_x00e9_", "_x00E9_", "line_x000a_break", "price_x20ac_", "_x005f_", "_x005F_x000D_", "_xzzzz_", "_x41_", "__x0041__"] {
+        v.push(("blank", vec![Input(0, 1, 1, s(t))]));
+        v.push(("blank", vec![Input(0, 1, 1, format!("=\"{}\"&\"\"", t))]));
+    }
     // (d) styles: every attribute value on a cell, a row, a column; pairs on a cell (thorough)
     let attrs = style_attrs();
     let scopes: [(i32, i32, i32, i32); 3] = [(2, 2, 1, 1), (3, 1, 1, 16_384), (1, 3, 1_048_576, 1)];
